@@ -793,6 +793,31 @@ def e2e_script(rng):
                                    "stream_len": len(full)}
 
 
+def peek_cases():
+    """webSocketsCheck / rfbPeekExactTimeout when only 1-3 bytes of the greeting have arrived, for
+    the stale errno values the call can inherit; with and without the rest arriving 30 ms later"""
+    rfb = b"RFB 003.008\n"
+    get = (b"GET / HTTP/1.1\r\nHost: h\r\nOrigin: o\r\nSec-WebSocket-Key: dGhlIHNhbXBsZSBub25jZQ==\r\n"
+           b"Sec-WebSocket-Version: 13\r\nSec-WebSocket-Protocol: binary\r\n\r\n")
+    out = []
+    for full, ws in ((rfb, 0), (get, 1)):
+        for k in (1, 2, 3):
+            for en in ("0", "EAGAIN", "EINTR"):
+                out.append(("peek %s %s - 0" % (full[:k].hex(), en), "ok", 0))
+            out.append(("peek %s EAGAIN %s 30" % (full[:k].hex(), full[k:].hex()), "ok", ws))
+    return out
+
+
+def oracle_peek(op, ob, want_ws):
+    if "hung" in ob:
+        return "rfbNewClient did not return within 1.5 s with 1-3 greeting bytes pending (busy loop in rfbPeekExactTimeout: no time-out while a partial message is readable)"
+    if "client=ok" not in ob:
+        return "connection dropped although the client had sent a proper prefix of its greeting (partial peek treated as a complete one)"
+    if ("ws=%d" % want_ws) not in ob:
+        return "transport misclassified: %s" % ob
+    return None
+
+
 LONE_CONTROL = "ws-lone-control-frame-timeout"
 
 
@@ -886,6 +911,22 @@ def load_corpus():
     return out
 
 
+def load_corpus_ops():
+    """corpus/C09/*.ops with function-level witnesses: `hs ...` lines (compared with the model, run
+    under ASan) and `peek ...` lines"""
+    d = os.path.join(common.VERIF, "corpus", "C09")
+    hs, pk = [], []
+    if os.path.isdir(d):
+        for f in sorted(os.listdir(d)):
+            if f.endswith(".ops"):
+                for l in open(os.path.join(d, f)).read().splitlines():
+                    if l.startswith("hs "):
+                        hs.append(l)
+                    elif l.startswith("peek "):
+                        pk.append((l, "ok", 0))
+    return hs, pk
+
+
 def run(ctx):
     h = ctx.harness("c09")
     d = ctx.driver("drv_c09")
@@ -909,6 +950,13 @@ def run(ctx):
         rec = json.load(open(ctx.replay))
         lines = rec.get("script", [])
         script = "\n".join(lines) + "\n"
+        if any(l.startswith("peek ") for l in lines):
+            rc, impl, err = ctx.run_lines(h, script, timeout=120)
+            o = ("harness exit %d" % rc) if rc != 0 else oracle_peek(lines[0], impl[0] if impl else "", 0)
+            if o:
+                fails.append({"kind": "oracle", "what": "C09 connection-time peek oracle (replay)", "detail": o,
+                              "script": lines, "impl": impl[:2]})
+            return {"evaluations": 1, "failures": fails, "samples": [{"script": lines[:3], "impl": impl[:3]}]}
         if any(l.startswith("conn ") for l in lines):          # end-to-end script: harness + oracle only
             rc, impl, err = ctx.run_lines(h, script, timeout=900)
             if rc != 0:
@@ -941,6 +989,11 @@ def run(ctx):
                 if o:
                     fails.append({"kind": "oracle", "what": "C09 decoder oracle (replay)", "detail": o[0],
                                   "script": lines, "impl": [ob[:3000]], "finding": o[1]})
+            elif t[0] == "peek":
+                o = oracle_peek(op, ob, 0)
+                if o:
+                    fails.append({"kind": "oracle", "what": "C09 connection-time peek oracle (replay)", "detail": o,
+                                  "script": [op], "impl": [ob]})
             elif t[0] in ("enc", "b64e", "sha1", "wx", "hs"):
                 o = oracle_func(op, ob)
                 if o:
@@ -1017,8 +1070,9 @@ def run(ctx):
             break
 
     # ---- function-level ops (encoder, chunked write, base64, sha1) and handshakes
-    flines = func_lines(rng, ctx.tier)
-    exotic = set()      # handshake requests outside the oracle's well-formed class: exact comparison only
+    corpus_hs, corpus_pk = load_corpus_ops()
+    flines = corpus_hs + func_lines(rng, ctx.tier)
+    exotic = set(corpus_hs)      # handshake requests outside the oracle's well-formed class: exact comparison only
     hs_meta = []
     for i in range(60 if quick else 400):
         req, m = mk_request(rng, valid=(i % 4 != 3))
@@ -1072,6 +1126,21 @@ def run(ctx):
         nontrivial.add(script[:300])
         if len(samples) < 6:
             samples.append({"script": [l[:200] for l in script.splitlines()][:12], "impl": [x[:200] for x in impl][:12]})
+
+    # ---- partial greeting at connection time (webSocketsCheck / rfbPeekExactTimeout)
+    pk = corpus_pk + peek_cases()
+
+    def run_pk(c):
+        return ctx.run_lines(h, c[0] + "\n", timeout=120)
+
+    dist["peek"] = {"ok": 0, "fail": 0}
+    for (op, _, ws), (rc, impl, err) in zip(pk, common.pmap(run_pk, pk, workers=8)):
+        evals += 1
+        o = ("harness exit %d" % rc) if rc != 0 else oracle_peek(op, impl[0] if impl else "", ws)
+        dist["peek"]["fail" if o else "ok"] += 1
+        if o and sum(1 for f in fails if f.get("what", "").startswith("C09 connection-time peek")) < 2:
+            fails.append({"kind": "oracle", "what": "C09 connection-time peek oracle", "detail": o,
+                          "script": [op], "impl": impl[:2]})
 
     # ---- a lone control frame / empty frame followed by silence (finding, see docs/C09.md)
     for kind in ("ping", "pong", "empty"):
